@@ -85,6 +85,18 @@ def materialise(case):
     for j, f in enumerate(feats):
         if rid.random() < 0.4:
             f["fid"] = "feat%04d" % j            # identifiers as annotation pipelines assign them
+        if rid.random() < 0.12:
+            f["parts"] = [[p[0], p[1], 0 if p[2] is None else p[2]] + list(p[3:]) for p in f["parts"]]     # strand 0: "stranded, strand unknown"
+    if rid.random() < 0.15:
+        # a feature with an exon on another record next to a local one (GenBank join(J00194.1:3..8,5..9)), or wholly elsewhere
+        a = rid.randint(0, 3 * n + 5)
+        remote = [a, a + rid.randint(1, 2 * n + 3), rid.choice([1, -1]), "J%05d.1" % rid.randint(0, 99999), None]
+        parts = [remote]
+        if rid.random() < 0.6 and n >= 2:
+            x = rid.randrange(n - 1)
+            local = [x, rid.randint(x + 1, n), remote[2]]
+            parts = [local, remote] if rid.random() < 0.5 else [remote, local]
+        feats.append({"type": "misc_feature", "parts": parts, "quals": {"uid": ["remote"], "note": ["elsewhere"]}})
     rec = {"id": "r%d" % case["i"], "seq": seq, "features": feats, "annotations": {"topology": "circular", "molecule_type": "DNA"}}
     if rng.random() < 0.5:
         rec["letters"] = {"phred_quality": [rng.randint(0, 60) for _ in range(n)]}
@@ -115,7 +127,7 @@ def _equiv(ctx, a, b, mech, msg, n):
     if ka != kb or len(fa) != len(fb):
         ctx.violation(mech + "-features-lost", msg + ": feature sets differ (%s vs %s; %d vs %d features)" % (sorted(map(str, ka)), sorted(map(str, kb)), len(fa), len(fb)))
         return
-    same = lambda pa, pb: same_denotation(denote({"parts": pa}, n), denote({"parts": pb}, n), n, stranded=all(st in (1, -1) for _, _, st in pa))
+    same = lambda pa, pb: same_denotation(denote({"parts": pa}, n), denote({"parts": pb}, n), n, stranded=all(x[2] in (1, -1) for x in pa))
     for key in ka:
         pa, pb = fa[key][3], fb[key][3]
         if not same(pa, pb):
